@@ -37,6 +37,9 @@ package proxy
 //                               retry was certainly still inside the previous attempt or its back-off
 //   C10.stream-resent           a request with a stream body reached the transport twice
 //   C10.final-outcome           result / status / body seen by the client is not the last attempt's
+//   C10.failed-body-published   the last attempt's answer arrived with a body that could not be read completely
+//                               (reset / stall until the time-out after k bytes, larger than serverMaxBodySize),
+//                               yet the client is given that answer's status or bytes of its body
 //   C10.timeout-not-applied     pool has a timeout, but the context handed to the transport has no
 //                               deadline or one later than (transport entry + timeout)
 //   C10.timeout-premature       an attempt's context reported DeadlineExceeded earlier than
@@ -78,6 +81,10 @@ package proxy
 //     window size. With one client task the prediction is exact; with several tasks only bounds
 //     are asserted (enough failed requests must exist to explain an open breaker; once a
 //     short-circuit has been observed every later request must be short-circuited).
+//   * an attempt whose body cannot be read has failed: a failure result and a 5xx status are
+//     required (408/timeout also accepted when the pool time-out expired inside the body, any
+//     4xx/5xx after a client cancel); which failure result is not prescribed. A stalled body
+//     without a pool time-out is only generated together with a client cancel.
 //   * a retried buffered request must carry its body again: not asserted (statement silent).
 
 import (
@@ -120,9 +127,10 @@ type c10CB struct {
 }
 
 type c10Attempt struct {
-	Kind   string `json:"kind"` // resp | neterr | hang
+	Kind   string `json:"kind"` // resp | neterr | hang | bodyfail | bodyhang | toolarge | toolarge-unknown
 	Status int    `json:"status"`
 	LatUs  int64  `json:"lat_us"`
+	BodyK  int    `json:"body_k"` // bodyfail/bodyhang: bytes of the declared body delivered before the read fails / blocks
 }
 
 type c10Op struct {
@@ -143,6 +151,7 @@ type c10Scenario struct {
 	TimeoutUs    int64       `json:"timeout_us"`
 	FailureCodes []int       `json:"failure_codes"`
 	Clients      []c10Client `json:"clients"`
+	MaxBody      int64       `json:"max_body"` // pool serverMaxBodySize; 0: omitted (default)
 	Net          bool        `json:"net"` // variant: real http.Transport over simnet against a scripted backend server
 }
 
@@ -194,6 +203,9 @@ func c10Gen(rng *sim.Rand, tier string) interface{} {
 	}
 
 	sc.Net = rng.Bool(0.08)
+	if rng.Bool(0.2) {
+		sc.MaxBody = 64
+	}
 	switch os.Getenv("C10_ONLY") { // development knob: restrict the search to one variant
 	case "net":
 		sc.Net = true
@@ -204,8 +216,8 @@ func c10Gen(rng *sim.Rand, tier string) interface{} {
 	nClients := rng.Pick(1, 1, 2, 3)
 	total := rng.Range(1, 8)
 	if sc.Net {
-		nClients = rng.Pick(1, 1, 2)
-		total = rng.Range(1, 4)
+		nClients = 1 // see c10net_test.go: one client task in the net variant
+		total = rng.Range(1, 5)
 	}
 	if sc.CB.On {
 		total = rng.Range(4, 14)
@@ -264,6 +276,25 @@ func c10Gen(rng *sim.Rand, tier string) interface{} {
 				// failing attempt
 				x := rng.Intn(100)
 				switch {
+				case x < 14:
+					// the answer's head arrives, its body does not (buffered mode)
+					at.Status = rng.Pick(200, 200, 201, 404, 503)
+					at.LatUs = fastLat()
+					at.BodyK = rng.Pick(0, 1, 5, 20)
+					switch y := rng.Intn(10); {
+					case y < 4:
+						at.Kind = "bodyfail"
+					case y < 6 && (T > 0 || willCancel):
+						at.Kind = "bodyhang"
+					case y < 8:
+						at.Kind = "toolarge"
+						sc.MaxBody = 64
+					case y < 9:
+						at.Kind = "toolarge-unknown"
+						sc.MaxBody = 64
+					default:
+						at.Kind = "bodyfail"
+					}
 				case x < 30 && len(sc.FailureCodes) > 0:
 					at.Status = sc.FailureCodes[rng.Intn(len(sc.FailureCodes))]
 					at.LatUs = fastLat()
@@ -379,6 +410,9 @@ func c10Build(r *sim.Run, sc *c10Scenario) (*c10Ref, map[string]resilience.Polic
 	if sc.TimeoutUs > 0 {
 		spec.Timeout = fmt.Sprintf("%dus", sc.TimeoutUs)
 	}
+	if sc.MaxBody > 0 {
+		spec.ServerMaxBodySize = sc.MaxBody
+	}
 	if rt.On {
 		raw := map[string]interface{}{"kind": "Retry", "name": "c10retry"}
 		ref.maxAttempts, ref.wait = 3, 500*time.Millisecond // documented defaults
@@ -444,6 +478,7 @@ type c10Att struct {
 	ctxErr     string // "" | deadline | canceled
 	failed     bool
 	tag        string
+	sent       string // bodyerr: the bytes of the failed body that were delivered
 }
 
 type c10Req struct {
@@ -516,6 +551,7 @@ func c10Exec(r *sim.Run, sci interface{}) {
 		return fmt.Sprintf("retry=%+v (reference: maxAttempts=%d wait=%v exponential=%v rf=%.2f) timeout=%v failureCodes=%v cb=%+v", rt, ref.maxAttempts, ref.wait, ref.exponential, ref.rf, ref.timeout, sc.FailureCodes, cb)
 	}
 
+	var sawBodyErr, sawBodyErrLast bool
 	var sawRetrySuccess, sawExhausted, sawTimeout, sawShort, sawCancelBackoff, sawCancelAttempt, sawExp3 bool
 
 	fnSendRequest = func(hr *http.Request, _ *http.Client) (*http.Response, error) {
@@ -641,10 +677,52 @@ func c10Exec(r *sim.Run, sci interface{}) {
 			note("%s.a%d ctx-%s", st.name, idx, att.ctxErr)
 			return nil, fmt.Errorf("c10 transport: %w", err)
 		}
-		if script.Kind != "resp" {
+		switch script.Kind {
+		case "resp", "bodyfail", "bodyhang", "toolarge", "toolarge-unknown":
+		default:
 			att.kind, att.failed = "err", true
 			note("%s.a%d neterr", st.name, idx)
 			return nil, c10ErrNet
+		}
+		if script.Kind == "bodyhang" && ref.timeout == 0 && st.op.CancelUs < 0 {
+			script.Kind = "bodyfail"
+		}
+		if (script.Kind == "toolarge" || script.Kind == "toolarge-unknown") && sc.MaxBody <= 0 {
+			script.Kind = "bodyfail"
+		}
+		if script.Kind != "resp" {
+			// an answer whose body cannot be read completely: the attempt fails
+			status := script.Status
+			if status < 200 || status > 599 {
+				status = 200
+			}
+			full := att.tag + "-" + strings.Repeat("x", 80)
+			att.kind, att.status, att.failed = "bodyerr", status, true
+			resp := &http.Response{StatusCode: status, Proto: "HTTP/1.1", ProtoMajor: 1, ProtoMinor: 1,
+				Header: http.Header{"X-C10-Attempt": []string{att.tag}}, ContentLength: int64(len(full))}
+			switch script.Kind {
+			case "toolarge":
+				att.sent = full
+				resp.Body = io.NopCloser(strings.NewReader(full))
+			case "toolarge-unknown":
+				att.sent = full
+				resp.ContentLength = -1
+				resp.Body = io.NopCloser(strings.NewReader(full))
+			default:
+				k := script.BodyK
+				if k < 0 {
+					k = 0
+				}
+				if k >= len(full) {
+					k = len(full) - 1
+				}
+				att.sent = full[:k]
+				resp.Body = &c10FailBody{r: r, ctx: ctx, data: full[:k], hang: script.Kind == "bodyhang", att: att,
+					done: func(how string) { note("%s.a%d body read %s after %d bytes", st.name, idx, how, k) }}
+			}
+			sawBodyErr = true
+			note("%s.a%d status %d, body %s", st.name, idx, status, script.Kind)
+			return resp, nil
 		}
 		status := script.Status
 		if status < 200 || status > 599 {
@@ -795,6 +873,21 @@ func c10Exec(r *sim.Run, sci interface{}) {
 			}
 			if n >= 2 {
 				sawRetrySuccess = true
+			}
+		case last.kind == "bodyerr":
+			// the head of the answer arrived, its body did not: the attempt failed; the client must
+			// get a failure (5xx; 408/timeout if the pool time-out expired in the body; free after a
+			// client cancel), never the backend's status with a partial body
+			sawBodyErrLast = true
+			leak := body != "" && (strings.Contains(body, st.name+"-attempt-") || strings.HasPrefix(last.tag+"-"+strings.Repeat("x", 80), body))
+			okStatus := status >= 500 || (last.ctxErr == "deadline" && status == http.StatusRequestTimeout) || (last.ctxErr == "canceled" && status >= 400)
+			switch {
+			case leak || (hasResp && status == last.status && status < 500):
+				r.Violate("C10.failed-body-published", "request %s: the body of the last attempt (%d, status %d) failed after %d bytes, yet the client is given status %d with body %q (result %q): the response of a failed attempt was published\n%s\nhistory: %s",
+					st.name, n, last.status, len(last.sent), status, body, result, describe(), history())
+			case result == "" || !hasResp || !okStatus:
+				r.Violate("C10.final-outcome", "request %s: the body of the last attempt (%d, status %d) could not be read (%d bytes delivered), client got result %q status %d body %q (expected a failure result with a 5xx status)\n%s\nhistory: %s",
+					st.name, n, last.status, len(last.sent), result, status, body, describe(), history())
 			}
 		case last.kind == "resp":
 			if result != "failureCode" || !hasResp || status != last.status || body != last.tag {
@@ -951,6 +1044,8 @@ func c10Exec(r *sim.Run, sci interface{}) {
 			r.Probe(name)
 		}
 	}
+	probe(sawBodyErr, "c10.body.attempt_with_unreadable_body")
+	probe(sawBodyErrLast, "c10.body.last_attempt_body_unreadable")
 	probe(sawRetrySuccess, "c10.retry.success_after_failed_attempt")
 	probe(sawExhausted, "c10.retry.all_attempts_failed")
 	probe(sawTimeout, "c10.timeout.fired")
@@ -974,6 +1069,58 @@ func c10Exec(r *sim.Run, sci interface{}) {
 	}
 	r.SetSig(sig.String())
 }
+
+// c10FailBody delivers data, then fails (connection reset) or blocks until the
+// request context ends.
+type c10FailBody struct {
+	r      *sim.Run
+	ctx    stdcontext.Context
+	data   string
+	pos    int
+	hang   bool
+	att    *c10Att
+	err    error
+	done   func(how string)
+	closed bool
+}
+
+func (b *c10FailBody) Read(p []byte) (int, error) {
+	if len(p) == 0 {
+		return 0, nil
+	}
+	if b.pos < len(b.data) {
+		n := copy(p, b.data[b.pos:])
+		b.pos += n
+		return n, nil
+	}
+	if b.err != nil {
+		return 0, b.err
+	}
+	how := "reset"
+	b.err = c10ErrNet
+	if b.hang && !b.closed && !b.r.Violated() && !b.r.Aborted() {
+		tm := time.NewTimer(3 * time.Hour)
+		select {
+		case <-b.ctx.Done():
+		case <-tm.C:
+		}
+		tm.Stop()
+		b.r.Yield("c10.body")
+		how = "stalled-3h"
+		if e := b.ctx.Err(); e != nil {
+			b.err = e
+			how, b.att.ctxErr = "ctx-canceled", "canceled"
+			if e == stdcontext.DeadlineExceeded {
+				how, b.att.ctxErr = "ctx-deadline", "deadline"
+			}
+		}
+	}
+	b.att.end = b.r.Now()
+	b.done(how)
+	return 0, b.err
+}
+
+func (b *c10FailBody) Close() error { b.closed = true; return nil }
 
 func c10Stack() string {
 	buf := make([]byte, 8<<10)
